@@ -886,20 +886,42 @@ impl Indexable for ast::SimpleValue {
             }
             ast::SimpleValue::List(list) => {
                 // index every element, not only the ones up to the first with a known type
-                let value_types: Vec<Type> = list
+                let value_types: Vec<(TextRange, Type)> = list
                     .value_list()?
                     .values()
-                    .filter_map(|value| value.index(ctx))
+                    .filter_map(|value| Some((value.syntax().text_range(), value.index(ctx)?)))
                     .collect();
                 // `[a, b]<T>` and `[]<T>` spell the element type out
-                if let Some(typ) = list.r#type() {
-                    return Some(Type::List(Box::new(typ.index(ctx)?)));
+                let annotated_typ = match list.r#type() {
+                    Some(typ) => Some(typ.index(ctx)?),
+                    None => None,
+                };
+                let is_annotated = annotated_typ.is_some();
+                let mut elm_typ = annotated_typ;
+                for (range, typ) in value_types {
+                    let Some(cur_typ) = elm_typ.take() else {
+                        elm_typ = Some(typ);
+                        continue;
+                    };
+                    // the elements of a list have one type: the widest among them, or what
+                    // they have in common (`[RegA, RegB]` is a list of their class)
+                    elm_typ = Some(if typ.can_be_casted_to(&ctx.symbol_map, &cur_typ) {
+                        cur_typ
+                    } else if !is_annotated && cur_typ.can_be_casted_to(&ctx.symbol_map, &typ) {
+                        typ
+                    } else if let Some(common_typ) =
+                        (!is_annotated).then(|| cur_typ.common_typ(&ctx.symbol_map, &typ)).flatten()
+                    {
+                        common_typ
+                    } else {
+                        ctx.error(
+                            range,
+                            format!("list element of type '{typ}' is incompatible with type '{cur_typ}'"),
+                        );
+                        cur_typ
+                    });
                 }
-                value_types
-                    .into_iter()
-                    .next()
-                    .map(|typ| Type::List(Box::new(typ)))
-                    .or(Some(Type::List(Box::new(Type::Any))))
+                Some(Type::List(Box::new(elm_typ.unwrap_or(Type::Any))))
             }
             ast::SimpleValue::Dag(dag) => {
                 if let Some(value) = dag.operator().and_then(|it| it.value()) {
